@@ -311,10 +311,9 @@ def apply (s : Sock) : Op → Sock × Option Res
 /-- results of all calls of a history -/
 def results : Sock → List Op → List (Nat × Res)
   | _, [] => []
-  | s, op :: ops =>
-    match op, apply s op with
-    | .fwd orig _ _, (s', some r) => (orig, r) :: results s' ops
-    | _, (s', _) => results s' ops
+  | s, .push e :: ops => results (apply s (.push e)).1 ops
+  | s, .fwd orig dot w :: ops =>
+    (orig, forward orig dot w s.queue) :: results (apply s (.fwd orig dot w)).1 ops
 
 end Udp
 
